@@ -263,6 +263,60 @@ func legVirtualOS(path string) []any {
 			out = append(out, N{"ms": mi + 1, "cwd": ci + 1, "outs": outs})
 		}
 	}
+	// the same with the working directory CHANGED in between: every operation is tried under cwd c1, then the
+	// virtual OS moves to c2 and every operation is tried again; what the second round does is judged for c2
+	// (a path text resolved once must not stay resolved for the old directory)
+	if !strings.HasPrefix(path, "/") {
+		for mi, ms := range mountSets {
+			for c1, cwd1 := range baseSegs {
+				for c2, cwd2 := range baseSegs {
+					if c1 == c2 {
+						continue
+					}
+					var log []recCall
+					mounts := map[string]*ros.Mount{}
+					byName := map[string][]string{}
+					for _, m := range ms {
+						t := locString(m)
+						mounts[t] = &ros.Mount{Source: &recFS{name: t, log: &log}, Target: t, Type: "rec"}
+						byName[t] = m
+					}
+					v := ros.NewVirtualOS(context.Background(), ros.WithMounts(mounts), ros.WithCwd(locString(cwd1)))
+					for _, op := range vosOps {
+						func() {
+							defer func() { recover() }()
+							op.call(v, path)
+						}()
+					}
+					if err := v.Chdir(locString(cwd2)); err != nil {
+						continue
+					}
+					outs := []any{}
+					for _, op := range vosOps {
+						log = log[:0]
+						var err error
+						pan := false
+						func() {
+							defer func() {
+								if x := recover(); x != nil {
+									pan = true
+								}
+							}()
+							err = op.call(v, path)
+						}()
+						if pan || len(log) == 0 {
+							outs = append(outs, N{"ok": false, "si": pan || err == nil, "m": []string{}, "rel": []string{}, "by": op.code + "@chdir"})
+							continue
+						}
+						for _, c := range log {
+							outs = append(outs, N{"ok": true, "si": false, "m": byName[c.mount], "rel": comps(c.arg), "by": op.code + "@chdir"})
+						}
+					}
+					out = append(out, N{"ms": mi + 1, "cwd": c2 + 1, "outs": outs})
+				}
+			}
+		}
+	}
 	return out
 }
 
